@@ -181,7 +181,7 @@ func VxRootRotationFault() {
 	vxAssert("after restart the earlier record is readable", vxReadable(r, val))
 }
 
-// (c'') Rotate hit by ONE storage failure at ANY of its calls, node keeps running and the rotation is retried (drawing
+// (c”) Rotate hit by ONE storage failure at ANY of its calls, node keeps running and the rotation is retried (drawing
 // fresh key material): what is written afterwards is readable by the running barrier AND after a restart, i.e. it was
 // encrypted under a key that is in the persisted keyring - an abandoned candidate key is never used.
 func VxRotateFaultThenRetry() {
@@ -212,6 +212,54 @@ func VxRotateFaultThenRetry() {
 	e, gerr = r.Get(ctx, "secret/new")
 	vxAssert("after restart the record written after the retried rotation is readable (it was encrypted under a persisted key)", gerr == nil && e != nil && len(e.Value) == 1 && e.Value[0] == nv)
 	vxReach("rotate fault: restarted")
+}
+
+// the periodic auto-rotate check (which persists the keyring to save encryption counts) racing a rotation: the
+// rotation request arrives while the check is writing the keyring (second logical thread, started right before the
+// check's first physical write; it is held by the barrier lock and resumed when the check releases it). Afterwards the
+// store on disk must hold the rotated keyring: what was written under the new term is readable after a restart.
+func VxAutoRotateCheckRacesRotate() {
+	ctx := context.Background()
+	phys, root, val := vxInitStore(false)
+	b := vxNewBarrier(phys)
+	vxAssert("unseal ok", b.Unseal(ctx, root) == nil)
+	vxAssert("a write, so that there are encryption counts to persist", b.Put(ctx, &logical.StorageEntry{Key: "secret/b", Value: []byte{3}}) == nil)
+	rootRotation := vxBool("the racing request is a root-key rotation (else an encryption-key rotation)")
+	newRoot := vxBytes("newRoot", 32)
+	done := false
+	vxBeforePhysPut = func() {
+		vxSpawn(func() {
+			if rootRotation {
+				vxAssert("root rotation ok", b.RotateRootKey(ctx, newRoot) == nil)
+			} else {
+				_, rerr := b.Rotate(ctx)
+				vxAssert("rotation ok", rerr == nil)
+			}
+			vxAssert("write after the rotation ok", b.Put(ctx, &logical.StorageEntry{Key: "secret/new", Value: []byte{5}}) == nil)
+			done = true
+		})
+	}
+	reason, cerr := b.CheckBarrierAutoRotate(ctx)
+	vxAssert("auto-rotate check ok", cerr == nil)
+	if reason != "" {
+		// the (symbolic) clock says a rotation is due: the check only reports that and writes nothing
+		vxAssert("a check that reports a due rotation writes nothing", vxBeforePhysPut != nil)
+		vxBeforePhysPut = nil
+		return
+	}
+	vxAssert("the check did write the keyring (the scheduling point was reached)", vxBeforePhysPut == nil)
+	vxAssert("the rotation completes once the check has released the barrier lock", done)
+	vxReach("auto-rotate check raced by a rotation")
+	r := vxNewBarrier(phys) // restart
+	okOld := r.Unseal(ctx, root) == nil
+	if !okOld {
+		vxAssert("after restart a valid root key (old, or new after a root rotation) unseals", rootRotation && r.Unseal(ctx, newRoot) == nil)
+	} else {
+		vxAssert("the old root key only keeps working if the root key was not rotated (or rotated to the same bytes)", !rootRotation || vxBytesEq(newRoot, root))
+	}
+	vxAssert("after restart the earlier record is readable", vxReadable(r, val))
+	e, gerr := r.Get(ctx, "secret/new")
+	vxAssert("after restart the record written under the rotated keyring is readable (the check's stale keyring did not overwrite the rotation)", gerr == nil && e != nil && len(e.Value) == 1 && e.Value[0] == 5)
 }
 
 // RotateRootKey with a crash after any prefix of its writes
